@@ -85,6 +85,13 @@ pub fn dbprobe_path() -> PathBuf {
 /// Run dbprobe in a child process; `Err(status text)` if it did not exit 0.
 pub fn run_probe(mode: &str, xdg: &Path, queries_file: &Path, env: &[(&str, String)], taskset: Option<&str>) -> Result<Vec<String>, String> {
     let mut cmd = match taskset {
+        Some(spec) if spec.starts_with("strace:") => {
+            // strace:<syscall>@<n> : kill the process (SIGKILL) at the n-th call of that system call (per thread)
+            let (sc, n) = spec["strace:".len()..].split_once('@').unwrap_or(("write", "1"));
+            let mut c = Command::new("strace");
+            c.arg("-f").arg("-qq").arg("-o").arg("/dev/null").arg("-e").arg(format!("trace={}", sc)).arg("-e").arg(format!("inject={}:signal=SIGKILL:when={}", sc, n)).arg(dbprobe_path());
+            c
+        }
         Some(cpus) => {
             let mut c = Command::new("taskset");
             c.arg("-c").arg(cpus).arg(dbprobe_path());
@@ -186,7 +193,7 @@ pub fn run_check(ctx: &Ctx) {
     // on-disk: first build, reopen, rebuild over a stale hash, reopen again
     let disk = work.join("disk");
     std::fs::create_dir_all(&disk).unwrap();
-    let nd = ctx.tier.pick(1usize, 4);
+    let nd = ctx.tier.pick(3usize, 8);
     for d in 0..nd {
         let dir = disk.join(format!("d{}", d));
         std::fs::create_dir_all(&dir).unwrap();
